@@ -815,6 +815,10 @@ class IteratorQueue(IterableQueue[_ValueT]):
         logging.exception('chainable: %s', f'"{self.name}" enqueue failed.')
         self._exception = e
         self._stop_enqueue()
+        if self._upstream is not None:
+          # The other enqueuers leave too: nobody consumes the upstream queue
+          # any more, its own enqueuers must not stay blocked on it.
+          self._upstream.maybe_stop()
         raise e
 
 
